@@ -192,6 +192,19 @@ fn upper_variants(v4fam: bool) -> Vec<(Option<Vec<u8>>, Upper)> {
             Upper::Tcp { sp: 40000, dp: 80, ctl: Ctl::Syn, ack: false, len: 0 },
             Upper::EchoReq { id: 0x1234, len: 12 },
         ];
+        // neighbor discovery: target x source link-layer option x hop limit (the source and
+        // destination classes of the product supply own / solicited-node / foreign / all-nodes
+        // destinations and on-link / unspecified sources)
+        let peer_ll = Ll::Eth(PEER_MAC); // replaced by the medium's form in scenario_at
+        for tgt in [OWN6G, OWN6LL, v6([0x2001, 0xdb8, 0, 0, 0, 0, 0, 0x77]), v6([0xff02, 0, 0, 0, 0, 0, 0, 1]), v6([0; 8]), OWN6S2] {
+            for ll in [Ll::None, peer_ll, Ll::Eth(0xffff_ffff_ffff)] {
+                for hl in [255u8, 64] {
+                    v.push((None, Upper::Ns { tgt, ll, hl }));
+                }
+            }
+        }
+        v.push((None, Upper::Na { tgt: PEER6G, ll: peer_ll, hl: 255 }));
+        v.push((None, Upper::Na { tgt: OWN6G, ll: Ll::None, hl: 255 }));
         for h in hbh_variants() {
             for u in &inner {
                 v.push((Some(h.clone()), u.clone()));
@@ -445,7 +458,17 @@ fn scenario_at(idx: usize, wide: bool) -> Scn {
             let (_, ll, pan) = ll_classes(seg.med, seg.v4fam)[d[1]].clone();
             let (_, src) = src_classes(seg.v4fam)[d[2]];
             let (_, dst) = dst_classes(seg.v4fam)[d[3]];
-            let (hbh, upper) = upper_variants(seg.v4fam)[d[4]].clone();
+            let (hbh, mut upper) = upper_variants(seg.v4fam)[d[4]].clone();
+            // the link-layer address option has the form of the medium
+            if let Upper::Ns { ll, .. } | Upper::Na { ll, .. } = &mut upper {
+                if seg.med == Med::M154 {
+                    *ll = match *ll {
+                        Ll::Eth(0xffff_ffff_ffff) => Ll::Short(0xffff),
+                        Ll::Eth(_) => Ll::Ext(PEER_EXT),
+                        x => x,
+                    };
+                }
+            }
             s.ev = Event::Rx(Rx { ll, pan, src, dst, hbh, upper });
             return s;
         } else {
@@ -668,6 +691,9 @@ fn map_scn_ips(s: &mut Scn, f: &dyn Fn(Ip) -> Ip) {
         Event::Rx(rx) => {
             rx.src = f(rx.src);
             rx.dst = f(rx.dst);
+            if let Upper::Ns { tgt, .. } | Upper::Na { tgt, .. } = &mut rx.upper {
+                *tgt = f(*tgt);
+            }
         }
         Event::TxUdp { dst, .. } | Event::TxConnect { dst, .. } => *dst = f(*dst),
     }
